@@ -48,11 +48,11 @@ const (
 )
 
 type PreENI struct {
-	Type   string `json:"type"` // Secondary | Trunk
-	RDMA   bool   `json:"rdma,omitempty"`
-	V4     int    `json:"v4"`
-	V6     int    `json:"v6"`
-	Foreign bool  `json:"foreign,omitempty"` // lacks the controller's tags
+	Type    string `json:"type"` // Secondary | Trunk
+	RDMA    bool   `json:"rdma,omitempty"`
+	V4      int    `json:"v4"`
+	V6      int    `json:"v6"`
+	Foreign bool   `json:"foreign,omitempty"` // lacks the controller's tags
 }
 
 type PodSpec struct {
@@ -62,19 +62,19 @@ type PodSpec struct {
 }
 
 type Config struct {
-	Stack     string    `json:"stack"`
-	Adapters  int       `json:"adapters"`
-	IPv4Per   int       `json:"ipv4_per"`
-	IPv6Per   int       `json:"ipv6_per"`
-	Trunk     bool      `json:"trunk"`
-	ERDMA     bool      `json:"erdma"`
-	MinPool   int       `json:"min_pool"`
-	MaxPool   int       `json:"max_pool"`
-	PreENIs   []PreENI  `json:"pre_enis"`
-	Pods      []PodSpec `json:"pods"`
-	Populated string    `json:"populated"` // "" | "synced" | "bound" | "bound-no-uid": initial Node status
-	GCPeriodS int       `json:"gc_period_s"`
-	HeartbeatS int      `json:"heartbeat_s"`
+	Stack      string    `json:"stack"`
+	Adapters   int       `json:"adapters"`
+	IPv4Per    int       `json:"ipv4_per"`
+	IPv6Per    int       `json:"ipv6_per"`
+	Trunk      bool      `json:"trunk"`
+	ERDMA      bool      `json:"erdma"`
+	MinPool    int       `json:"min_pool"`
+	MaxPool    int       `json:"max_pool"`
+	PreENIs    []PreENI  `json:"pre_enis"`
+	Pods       []PodSpec `json:"pods"`
+	Populated  string    `json:"populated"` // "" | "synced" | "bound" | "bound-no-uid": initial Node status
+	GCPeriodS  int       `json:"gc_period_s"`
+	HeartbeatS int       `json:"heartbeat_s"`
 }
 
 func (c *Config) v4() bool { return c.Stack == "v4" || c.Stack == "dual" }
@@ -113,7 +113,8 @@ type podState struct {
 	exists  bool
 	sb      int
 	sbLive  bool
-	v4, v6  string // what the pod reports (status)
+	exited  bool            // the pod object remains but its sandbox has exited (phase Succeeded)
+	v4, v6  string          // what the pod reports (status)
 	delUIDs map[string]bool // UIDs for which a DEL was processed by the daemon (passed the gate)
 	goneAt  time.Time
 	delDone time.Time
@@ -128,11 +129,17 @@ type World struct {
 	pods  []*podState
 	dir   string
 
-	ctl     *nodectl.ReconcileNode
-	vsw     *vswitch.SwitchPool
-	trigger chan struct{}
-	ctlGen  int
-	ctlStop map[int]chan struct{}
+	ctl        *nodectl.ReconcileNode
+	vsw        *vswitch.SwitchPool
+	trigger    chan struct{}
+	ctlGen     int
+	ctlStop    map[int]chan struct{}
+	restartCtl bool
+	// inReconcile: a Reconcile call is between entry and return.
+	inReconcile bool
+	// unsynced: a reconcile failed and the controller has not read the cloud since; amnesia: the
+	// controller was then restarted, which loses its in-memory note that a full sync is due.
+	unsynced, amnesia bool
 
 	gen    int
 	ctx    context.Context
@@ -263,6 +270,7 @@ func (w *World) createPod(p *podState) {
 	p.uidGen++
 	p.uid = fmt.Sprintf("uid-%s-%d", p.spec.Name, p.uidGen)
 	p.exists = true
+	p.exited = false
 	p.v4, p.v6 = "", ""
 	if err := w.api.Inner.Create(context.Background(), w.podObject(p)); err != nil {
 		panic(fmt.Sprintf("harness: create pod: %v", err))
@@ -434,9 +442,7 @@ func (w *World) startDaemon() error {
 // ---------------------------------------------------------------------------------------
 // controller runner (what controller-runtime's manager and work queue do)
 
-func (w *World) startController() {
-	w.ctlGen++
-	gen := w.ctlGen
+func (w *World) newController() {
 	var err error
 	w.vsw, err = vswitch.NewSwitchPool(100, "10m")
 	if err != nil {
@@ -444,7 +450,16 @@ func (w *World) startController() {
 	}
 	gc := time.Duration(w.cfg.GCPeriodS) * time.Second
 	w.ctl = nodectl.NewReconcileNodeForSim(w.api.Client, w.cloud, w.vsw, 12*time.Hour, gc)
-	ctl := w.ctl
+}
+
+// startController runs what controller-runtime's manager and work queue do for one key: at
+// most one reconcile at a time, started by events (pod events, node heartbeat), RequeueAfter
+// and the error back-off. A controller restart is graceful: the reconcile in flight finishes,
+// then a new reconciler (empty node cache, empty vSwitch cache) takes over.
+func (w *World) startController() {
+	w.ctlGen++
+	gen := w.ctlGen
+	w.newController()
 	w.run.S.GoNamed("reconciler", 0, func() {
 		backoff := time.Second
 		hb := time.Duration(w.cfg.HeartbeatS) * time.Second
@@ -459,10 +474,24 @@ func (w *World) startController() {
 			if idx == 2 {
 				w.run.Probe("heartbeat-reconcile")
 			}
+			if w.restartCtl {
+				w.restartCtl = false
+				w.newController()
+				backoff = time.Second
+				if w.unsynced {
+					w.amnesia = true
+					w.run.Probe("controller-restarted-with-resync-pending")
+				}
+			}
 			requeue = nil
 			w.reconciles++
 			before := w.cloud.mutations
-			res, err := ctl.Reconcile(context.Background(), reconcile.Request{NamespacedName: k8stypes.NamespacedName{Name: nodeName}})
+			w.inReconcile = true
+			res, err := w.ctl.Reconcile(context.Background(), reconcile.Request{NamespacedName: k8stypes.NamespacedName{Name: nodeName}})
+			w.inReconcile = false
+			if err != nil {
+				w.unsynced = true
+			}
 			w.run.S.Log("ctl", "reconcile #%d -> requeueAfter=%v err=%v cloudMutations=%d", w.reconciles, res.RequeueAfter, err != nil, w.cloud.mutations-before)
 			if gen != w.ctlGen {
 				return
